@@ -15,9 +15,10 @@ def gen(tier, rnd):
     L = []
     for m in METHODS:
         for p in PATHS: L.append('route %s %s' % (m, hx(p)))
-    combos = [(1, 2, 30, 'end'), (2, 4, 40, 'end'), (3, 6, 40, 'mid'), (4, 8, 25, 'end')]
+    combos = [(1, 2, 30, 'end'), (2, 4, 40, 'end'), (3, 6, 40, 'mid'), (4, 8, 25, 'end'), (1, 0, 0, 'end'), (2, 0, 0, 'end'), (4, 0, 0, 'end')]   # 0 clients: shutdown() right after serveThreaded()
     if tier == 'thorough':
         for _ in range(20): combos.append((rnd.randint(1, 6), rnd.randint(1, 12), rnd.randint(5, 80), rnd.choice(['end', 'mid', 'mid'])))
+        for _ in range(10): combos.append((rnd.randint(1, 6), 0, 0, 'end'))
     for i, (w, c, r, sd) in enumerate(combos): L.append('mt %d %d %d %s %d' % (w, c, r, sd, i + 1))
     return L
 
@@ -26,6 +27,7 @@ def tsan_lines(tier, rnd):
     n = 8 if tier == 'quick' else 60
     for i in range(n):
         L.append('mt %d %d %d %s %d' % (rnd.choice([2, 3, 4, 8]), rnd.choice([4, 8, 16]), rnd.choice([4, 6, 20]), rnd.choice(['end', 'end', 'mid']), 100 + i))
+    L.append('mt 2 0 0 end 99')
     return L
 
 BAD = ('ASAN', 'UBSAN', 'HANG', 'CRASH', 'TERMINATE', 'MISSING', 'bad-op', 'connect-failed', 'TSAN')
@@ -55,6 +57,7 @@ def oracle(ln, out):
     if 'missing' in f: return ('unanswered', '%s request(s) were not answered although the server was not shut down' % f['missing'])
     if f.get('shutdown') != 'ok': return ('shutdown', 'shutdown() took more than 5 s')
     if f.get('acceptor') != 'stopped': return ('shutdown', 'a connection was still served after shutdown() returned')
+    if f.get('sdthreads') not in ('0',): return ('threads', '%s framework thread(s) still alive 1.5 s after shutdown() returned (endpoint not yet destroyed)' % f.get('sdthreads'))
     if f.get('threads') not in ('0',): return ('threads', '%s framework thread(s) still alive after shutdown and destruction' % f.get('threads'))
     if f.get('tables') != '4': return ('shared-write', 'the shared routing table has %s method tables after serving (4 registered)' % f.get('tables'))
     return None
@@ -64,7 +67,8 @@ def oracle_tsan(ln, out):
     if any(x in out for x in ('HANG', 'CRASH', 'TERMINATE', 'MISSING')): return ('crash', 'implementation aborted/hung under ThreadSanitizer: ' + out[:160])
     f = dict(kv.split('=', 1) for kv in out.split(' ') if '=' in kv)
     if f.get('answered') != 'all-own' or f.get('bad') != '0': return ('wrong-answer', 'responses did not belong to their requests: ' + out[:160])
-    if f.get('shutdown') != 'ok' or f.get('acceptor') != 'stopped': return ('shutdown', out[:160])
+    # (the ThreadSanitizer runtime keeps a background thread of its own: compare with the count after destruction)
+    if f.get('shutdown') != 'ok' or f.get('acceptor') != 'stopped' or f.get('sdthreads') != f.get('threads'): return ('shutdown', out[:160])
     return None
 
 def classify(ln, out):
@@ -90,10 +94,10 @@ def extra(res, lean, drv, tier, rnd):
 
 RULE = ('route level: every method x 13 paths (registered for that method, for other methods only, for none; with duplicate and trailing slashes) against a shared router with GET/POST/PUT/DELETE tables on a live endpoint: '
         'status, body, Allow set and the number of method tables of the shared router after serving are compared with the model; concurrent: c clients x r keep-alive requests x w workers (swept), request mixes hitting every '
-        'method table incl. methods nobody registered, all clients released together, shutdown() after the load or in the middle of it: every answer must carry its own request\'s tag, shutdown must return, stop the acceptor and leave '
+        'method table incl. methods nobody registered, all clients released together, shutdown() after the load, in the middle of it, or right after serveThreaded() with no client at all: every answer must carry its own request\'s tag, shutdown must return, stop the acceptor and leave '
         'no framework thread; the same scenarios run on a ThreadSanitizer build, any report is a violation. non-trivial = distinct (op, parameters, outcome)')
 ASSUME = ['ThreadSanitizer sees only the interleavings the OS scheduler produced during the run (sampling, not a proof of race freedom)', 'the handler is a pure function of the request',
-          'thread termination is observed through /proc/self/task within 1 s of destroying the endpoint']
+          'thread termination is observed through /proc/self/task within 1.5 s of shutdown() returning (endpoint still alive) and again within 1 s of destroying the endpoint']
 
 def run(tier):
     return core.standard_run(PROP, tier, MODULES, THEOREMS, gen, oracle, classify, RULE, ASSUME, driver=('drv_mt', drivers.MT_SOURCES), extra=extra, retry=2)
